@@ -66,6 +66,14 @@ def _one(ctx, i, rep=None):
         gen_ = G(r, 0.0, pskip=0.4, pws=0.2, pcomment=0.4) if i % 2 else G(r, 0.0)
         g = gen_.grammar()
     text = RP.pr_grammar(g)
+    if i % 5 == 2:
+        # repetition modifiers that list two separator matches (the last one is the separator in force): the extra match
+        # is one more expression of the parser model that inputs of the same metamodel share
+        import re as _re
+        text2 = _re.sub(r"\[('(?:[^'\\]|\\.)*')((?: eolterm)?)\]", lambda m_: "['~~' %s%s]" % (m_.group(1), m_.group(2)), text)
+        if text2 != text:
+            text = text2
+            ctx.count('grammars_with_two_separator_matches')
     cfg = P.random_cfg(r)
     try:
         mm0 = P.make_mm(text, **cfg)
